@@ -359,6 +359,7 @@ type c8call struct {
 	idesc  string
 	skip   bool // do not observe the content (query variants)
 	stream string
+	iter   bool // the start selection (a list entry) is reached by First()/Next() instead of Find
 }
 
 type c8result struct {
@@ -376,6 +377,7 @@ type c8tree struct {
 	pfx             string
 	browser         *node.Browser
 	armed           bool
+	pol             c8policy
 	writes          []string
 	startSelections map[*c8node]*node.Selection
 }
@@ -385,6 +387,12 @@ func (t *c8tree) run(c c8call) (c8result, error) {
 	var startSel *node.Selection
 	if c.start.kind == "root" {
 		startSel = t.browser.Root()
+	} else if c.iter && c.start.kind == "row" {
+		s, err := t.iterate(c.start)
+		if err != nil {
+			return c8result{}, err
+		}
+		startSel = s
 	} else {
 		s, err, p := c8find(t.browser.Root(), c8render(c.start.steps, c8spell{}))
 		if err != nil || p != "" || s == nil {
@@ -438,11 +446,34 @@ func (t *c8tree) run(c c8call) (c8result, error) {
 	pure := len(writes) == 0 && t.data.Desc(t.root) == before
 	term := emit.App("mkF", c8locTerm(c.start.steps), emit.Str(c.path), c.intent, obsTerm, emit.Bool(pure))
 	desc := map[string]interface{}{"start": c8render(c.start.steps, c8spell{}), "path": c.path, "meaning": c.idesc,
-		"observed": obsDesc, "stream": c.stream}
+		"observed": obsDesc, "stream": c.stream, "node-key-answer": t.pol.String()}
 	if !pure {
 		desc["writes"] = writes
 	}
 	return c8result{term: term, desc: desc}, nil
+}
+
+// iterate reaches the list entry n the way a reader does: Find the list, First(), Next() ...
+func (t *c8tree) iterate(n *c8node) (sel *node.Selection, err error) {
+	defer func() {
+		if r := recover(); r != nil {
+			sel, err = nil, fmt.Errorf("iteration panicked: %v", r)
+		}
+	}()
+	last := n.steps[len(n.steps)-1]
+	lst := append(append([]c8step{}, n.steps[:len(n.steps)-1]...), c8step{idx: last.idx, kid: last.kid})
+	ls, ferr, p := c8find(t.browser.Root(), c8render(lst, c8spell{}))
+	if ferr != nil || p != "" || ls == nil {
+		return nil, fmt.Errorf("cannot obtain the list selection")
+	}
+	item, ierr := ls.First()
+	for i := 0; i < last.row && ierr == nil && item.Selection != nil; i++ {
+		item, ierr = item.Next()
+	}
+	if ierr != nil || item.Selection == nil {
+		return nil, fmt.Errorf("cannot iterate to the start entry")
+	}
+	return item.Selection, nil
 }
 
 var c8keyTypes = []string{"string", "string", "string", "int32", "uint8", "int64", "uint32", "boolean", "enumeration { enum a; enum b; enum c; }"}
@@ -565,7 +596,8 @@ func c8newTree(r *gen.Rng, n int) (*c8tree, error) {
 		}
 		return nil
 	}}
-	t.browser = node.NewBrowser(m, data.Node(root, hooks, ""))
+	t.pol = c8policies[0]
+	t.browser = node.NewBrowser(m, c8serve(data.Node(root, hooks, ""), root, &t.pol))
 	return t, nil
 }
 
@@ -607,6 +639,20 @@ func c8altKeyText(r *gen.Rng) func(v val.Value) string {
 		}
 		return v.String()
 	}
+}
+
+func c8iterTag(it bool) string {
+	if it {
+		return "-iterated-start"
+	}
+	return ""
+}
+
+func c8iterNote(it bool) string {
+	if it {
+		return " (start entry reached by First/Next)"
+	}
+	return ""
 }
 
 func (t *c8tree) calls(r *gen.Rng, budget int) []c8call {
@@ -689,6 +735,14 @@ func (t *c8tree) calls(r *gen.Rng, budget int) []c8call {
 					hasSpace = hasSpace || strings.Contains(v.String(), " ")
 				}
 			}
+			if isStr {
+				// ... and read constraints in the query behind an escaped key: the path part must be
+				// taken as written (decoded once)
+				qs := []string{"?depth=1", "?fields=zz", "?content=config", "?with-defaults=trim"}
+				q := qs[len(out)%len(qs)]
+				out = append(out, c8call{start: t.rootNode, path: c8render(n.steps, c8spell{}) + q, intent: present(n),
+					idesc: "list entry, escaped keys followed by the query " + q, skip: true, stream: "query"})
+			}
 			for mode := escLower; isStr && mode <= escPlus; mode++ {
 				if mode == escPlus && !hasSpace {
 					continue
@@ -709,7 +763,8 @@ func (t *c8tree) calls(r *gen.Rng, budget int) []c8call {
 			}
 			if anc != nil {
 				sp := c8spell{esc: gen.Pick(r, []int{escCanon, escCanon, escLower, escMinimal}), trailing: r.Chance(1, 4)}
-				out = append(out, c8call{start: anc, path: c8render(n.steps[cut:], sp), intent: present(n), idesc: "present node, path relative to an ancestor", stream: "ancestor"})
+				it := anc.kind == "row" && len(out)%2 == 0
+				out = append(out, c8call{start: anc, path: c8render(n.steps[cut:], sp), intent: present(n), idesc: "present node, path relative to an ancestor" + c8iterNote(it), stream: "ancestor" + c8iterTag(it), iter: it})
 			}
 		}
 		// 4. from another container-like node through ../
@@ -717,13 +772,15 @@ func (t *c8tree) calls(r *gen.Rng, budget int) []c8call {
 			s := gen.Pick(r, starts)
 			sp := c8spell{esc: gen.Pick(r, []int{escCanon, escCanon, escAll, escPlus}), trailing: r.Chance(1, 4)}
 			if p := relative(s, n, sp); strings.HasPrefix(p, "../") {
-				out = append(out, c8call{start: s, path: p, intent: present(n), idesc: "present node, ../ steps from another node", stream: "dotdot"})
+				it := s.kind == "row" && len(out)%2 == 0
+				out = append(out, c8call{start: s, path: p, intent: present(n), idesc: "present node, ../ steps from another node" + c8iterNote(it), stream: "dotdot" + c8iterTag(it), iter: it})
 			}
 		}
 		// 4b. one ../ from a list entry leads to the list selection
 		if n.kind == "row" && r.Chance(1, 3) {
 			lst := &c8node{steps: append(append([]c8step{}, n.steps[:len(n.steps)-1]...), c8step{idx: n.steps[len(n.steps)-1].idx, kid: n.s}), kind: "list", s: n.s}
-			out = append(out, c8call{start: n, path: "../", intent: present(lst), idesc: "../ from a list entry: the list", stream: "dotdot"})
+			it := len(out)%2 == 0
+			out = append(out, c8call{start: n, path: "../", intent: present(lst), idesc: "../ from a list entry: the list" + c8iterNote(it), stream: "dotdot" + c8iterTag(it), iter: it})
 		}
 		// 4c. the start selection is itself one that Find returned for a terminal node - a leaf,
 		// a leaf-list, or a list addressed without a key: its parent is the selection of the node
@@ -906,8 +963,8 @@ func (t *c8tree) negativeCalls(r *gen.Rng, starts []*c8node) []c8call {
 
 // C08: Find reaches exactly the addressed node, and paths render back to it.
 func C08(ctx *core.Ctx) error {
-	ctx.Imports = "Val.Model Tree.Schema Tree.Editor Tree.Find Check.C08Check"
-	ctx.Rule = "table = one generated schema (containers, lists in lists, 1-2 keys of string/int/bool/enum types, choices incl. nested, config false sub-trees, prefix equal to or different from the module name) and data tree whose string keys are built from fragments containing / , = % + space ? # : .. non-ASCII and invalid UTF-8; finds = every node of the tree (sampled when large; list entries always) x start selection (root, an ancestor, another container or list entry via ../, and a selection that Find itself returned for a leaf, leaf-list or key-less list via ../ to its siblings, its holder, other nodes and the root) x spelling (canonical, lower-case/over/minimal escaping, + for space, module-qualified segments, trailing slash, query parameters) plus absent containers/lists/keys, unknown names and malformed paths; observed: nil/NotFound/other error/panic, sel.Path as schema positions, Key(), Path.String(), content exported through a capturing reference store, re-find of the rendered path, write callbacks; non-trivial = tables with at least one list entry"
+	ctx.Imports = "Val.Model Tree.Schema Tree.Editor Tree.Find Tree.FindNode Check.C08Check"
+	ctx.Rule = "table = one generated schema (containers, lists in lists, 1-2 keys of string/int/bool/enum types, choices incl. nested, config false sub-trees, prefix equal to or different from the module name) and data tree whose string keys are built from fragments containing / , = % + space ? # : .. non-ASCII and invalid UTF-8, served by nodes that answer a lookup by key with the request's key / no key / the entry's own key values (all lists alike or by position: every answer Node.Next's contract allows); finds = every node of the tree (sampled when large; list entries always) x start selection (root, an ancestor, another container or list entry via ../ - list entries reached by Find or by First()/Next() iteration -, and a selection that Find itself returned for a leaf, leaf-list or key-less list via ../ to its siblings, its holder, other nodes and the root) x spelling (canonical, lower-case/over/minimal escaping, + for space, module-qualified segments, trailing slash, query parameters) plus absent containers/lists/keys, unknown names and malformed paths; observed: nil/NotFound/other error/panic, sel.Path as schema positions, Key(), Path.String(), content exported through a capturing reference store, re-find of the rendered path, write callbacks; non-trivial = tables with at least one list entry"
 	ctx.ShardMax = 110000 // several shards classify in parallel
 	r := gen.New(ctx.Seed)
 	trees := ctx.Scale(6, 150)
@@ -919,45 +976,55 @@ func C08(ctx *core.Ctx) error {
 			return err
 		}
 		calls := t.calls(tr.Fork(3), budget)
-		idx := ctx.N()
-		var terms []string
-		var descs []map[string]interface{}
 		hasRow := false
 		for _, nd := range t.nodes {
 			if nd.kind == "row" {
 				hasRow = true
 			}
 		}
-		for _, c := range calls {
+		// every call is served under one of the key-answer behaviours in turn; the calls of one
+		// behaviour form one case (table)
+		np := len(c8policies)
+		terms := make([][]string, np)
+		descs := make([][]map[string]interface{}, np)
+		for j, c := range calls {
+			g := (j + n) % np
+			t.pol = c8policies[g]
 			res, err := t.run(c)
 			if err != nil {
 				ctx.Count("skipped:start-not-found")
 				continue
 			}
-			terms = append(terms, res.term)
-			descs = append(descs, res.desc)
+			terms[g] = append(terms[g], res.term)
+			descs[g] = append(descs[g], res.desc)
 			ctx.Count("stream:" + c.stream)
+			ctx.Count("node-key-answer:" + t.pol.String())
 		}
-		head := func(fs string) string {
-			return emit.App("CFinds", emit.Str(t.pfx), emit.Str(t.m.Ident()), t.root.KidsTerm(), t.data.ContentTerm(t.root), fs)
-		}
-		if ctx.Explode == idx {
-			for i := range terms {
-				d := descs[i]
-				d["kind"] = "find"
-				d["yang"] = t.yang
-				d["data"] = t.data.Desc(t.root)
-				ctx.Add(head(emit.List([]string{terms[i]})), d, hasRow)
+		total := 0
+		for g := 0; g < np; g++ {
+			if len(terms[g]) == 0 {
+				continue
 			}
-			return nil
+			pol := c8policies[g]
+			idx := ctx.N()
+			head := func(fs string) string {
+				return emit.App("CFindsN", pol.term(), emit.Str(t.pfx), emit.Str(t.m.Ident()), t.root.KidsTerm(), t.data.ContentTerm(t.root), fs)
+			}
+			if ctx.Explode == idx {
+				for i := range terms[g] {
+					d := descs[g][i]
+					d["kind"] = "find"
+					d["yang"] = t.yang
+					d["data"] = t.data.Desc(t.root)
+					ctx.Add(head(emit.List([]string{terms[g][i]})), d, hasRow)
+				}
+				return nil
+			}
+			ctx.Add(head(emit.List(terms[g])), map[string]interface{}{"kind": "table", "yang": t.yang, "data": t.data.Desc(t.root), "node-key-answer": pol.String(),
+				"finds": len(terms[g]), "nodes": len(t.nodes), "first": descs[g][0]}, hasRow)
+			total += len(terms[g])
 		}
-		first := map[string]interface{}{}
-		if len(descs) > 0 {
-			first = descs[0]
-		}
-		ctx.Add(head(emit.List(terms)), map[string]interface{}{"kind": "table", "yang": t.yang, "data": t.data.Desc(t.root),
-			"finds": len(terms), "nodes": len(t.nodes), "first": first}, hasRow)
-		ctx.Hist["finds"] += len(terms)
+		ctx.Hist["finds"] += total
 		ctx.Hist["nodes"] += len(t.nodes)
 	}
 	return nil
